@@ -316,22 +316,26 @@ def run(prog: Program, res: Result) -> None:
                     continue
                 n_eval += 1
                 zero_at = None
-                for mc in range(1, 13):
+                for mc in (range(1, 13) if ("mc" in syms or "cycle" in syms) else [1]):
                     for cyc in (range(1, mc + 1) if "cycle" in syms else [1]):
                         for ps in (range(1, 13) if "pop" in syms else [1]):
-                            try:
-                                v = fn({"mc": mc, "cycle": cyc, "pop": ps})
-                            except ZeroDivisionError:
-                                v = 0
-                            except Exception:
-                                v = 1
-                            if v == 0:
-                                zero_at = zero_at or {"max_cycles": mc, "cycle": cyc, "population_size": ps}
+                            for wk in (range(1, 17) if "wk" in syms else [1]):
+                                for na in (range(1, 13) if "n" in syms else [1]):
+                                    try:
+                                        v = fn({"mc": mc, "cycle": cyc, "pop": ps, "wk": wk, "n": na})
+                                    except ZeroDivisionError:
+                                        v = 0
+                                    except Exception:
+                                        v = 1
+                                    if v == 0:
+                                        zero_at = zero_at or {"max_cycles": mc, "cycle": cyc, "population_size": ps,
+                                                              "workers": wk, "n_agents": na}
                 key = construct_key(prog, n, f.module)
                 res.ob(zero_at is None, f"{f.module.relpath}:{n.lineno} denominator `{norm(den, 50)}` never 0 on the config domain" if zero_at is None else None, key)
                 if zero_at is not None:
                     shown = {k: v for k, v in zero_at.items() if (k == "max_cycles" and "mc" in syms) or (k == "cycle" and "cycle" in syms)
-                             or (k == "population_size" and "pop" in syms)}
+                             or (k == "population_size" and "pop" in syms) or (k == "workers" and "wk" in syms)
+                             or (k == "n_agents" and "n" in syms)}
                     bad("R5-zero-denominator", n,
                         f"`{norm(n, 80)}` in {f.qualname}: the denominator `{norm(den, 50)}` is 0 for the valid configuration {shown} and the "
                         f"numerator is a Python scalar: ZeroDivisionError part-way through optimize()", mod=f.module)
@@ -360,11 +364,175 @@ def run(prog: Program, res: Result) -> None:
                             f"`{norm(n, 70)}` in {f.qualname} applies the stdlib `{ext}` ({PARTIAL[ext[5:]]}) to a value derived from "
                             f"`{dep}`: costs/positions are unbounded over valid tasks, so optimize() can fail part-way where the numpy "
                             f"equivalent would give inf/nan", mod=f.module)
+    # ------------------------------------------------------------------ R7 in-place float arithmetic on an integer-capable array
+    # np.array(<agent>.position) / np.array(<bounds>) is int64 on integer-coded tasks (discrete, binary, permutation); `a += <float>`
+    # on it raises numpy's UFuncTypeError (same-kind casting), whereas `a = a + <float>` gives a new float array.  Quantifier:
+    # "a pair that works today must not start failing wholesale" - the sites that already fail on integer tasks today are the
+    # baseline INT_INPLACE_BASELINE (one reason each); any other such site is reported.
+    n_inpl = 0
+    for f in prog.all_functions():
+        if f.cls is None or not prog.is_subclass(f.cls, ABSTRACT):
+            continue
+        for n in own_nodes(f):
+            if not (isinstance(n, ast.AugAssign) and isinstance(n.op, (ast.Add, ast.Sub, ast.Mult, ast.Div, ast.Pow))):
+                continue
+            base = n.target      # `a[idx] += x` stores with an unsafe cast and does not raise: plain names only
+            if not isinstance(base, ast.Name):
+                continue
+            src = _int_capable_array(f, base, n)
+            if src is None:
+                continue
+            if not (isinstance(n.op, ast.Div) or _floaty(f, n.value)):
+                continue
+            n_inpl += 1
+            key = construct_key(prog, n, f.module)
+            base_reason = INT_INPLACE_BASELINE.get((f.qualname.replace(PKG + ".", ""), norm(n.target)))
+            res.ob(True, f"{f.module.relpath}:{n.lineno} `{norm(n, 60)}` on an array from `{src}`"
+                         + (f" - fails on integer tasks today (baseline): {base_reason}" if base_reason else ""), key)
+            if base_reason is None:
+                res.ob(False)
+                bad("R7-inplace-float-into-int-array", n,
+                    f"`{norm(n, 70)}` in {f.qualname} updates in place an array built from `{src}` (int64 on discrete / binary / "
+                    f"permutation tasks) with a float operand: numpy raises UFuncTypeError (cannot cast float64 to int64) and every "
+                    f"integer-coded task starts failing with this optimizer; use `x = x + ..` or .astype(float)", mod=f.module)
+    res.count("inplace-float-on-int-capable-array", n_inpl)
+    res.floor("inplace-float-on-int-capable-array", len(INT_INPLACE_BASELINE))
     res.count("stdlib-math-partial-calls", n_math)
     res.count("divisions-in-optimizers", n_div)
     res.count("config-affine-denominators-evaluated", n_eval)
     res.floor("divisions-in-optimizers", 150)
     res.floor("config-affine-denominators-evaluated", 20)
+
+
+# sites that raise UFuncTypeError on integer-coded tasks on the confirmed tree (observed: AntLion, EnergyValley, GoldenJackal fail on
+# a purely discrete task, all other 80 default-constructible optimizers pass) - the property tolerates pairs that fail today
+INT_INPLACE_BASELINE = {
+    ("ant_lion.ant_lion_optimization.AntLionOptimization.optimization_step", "lower_bounds"): "bounds of a discrete task are an int array",
+    ("ant_lion.ant_lion_optimization.AntLionOptimization.optimization_step", "upper_bounds"): "bounds of a discrete task are an int array",
+    ("energy_valley.energy_valley_optimization.EnergyValleyOptimization.optimization_step.evolve", "pos_new1"): "copy of an int position",
+    ("energy_valley.energy_valley_optimization.EnergyValleyOptimization.optimization_step.evolve", "pos_new2"): "copy of an int position",
+    ("golden_jackal.golden_jackal_optimization.GoldenJackalOptimization.optimization_step.evolve", "male_position"): "np.array(male.position)",
+    ("golden_jackal.golden_jackal_optimization.GoldenJackalOptimization.optimization_step.evolve", "female_position"): "np.array(female.position)",
+}
+
+
+def _single_def(f: FuncInfo, name: str):
+    """(scope, value) of the only plain assignment to `name` in f or an enclosing function; None when reassigned / unknown"""
+    from ..flow import store_sites
+    scope = f
+    while scope is not None:
+        sites = store_sites(scope.node, name)
+        if sites:
+            plain = [(s_, v, k) for (s_, v, k) in sites if k == "assign" and v is not None]
+            others = [x for x in sites if x[2] not in ("assign", "aug", "unpack")]
+            unpack = [x for x in sites if x[2] == "unpack"]
+            if len(unpack) == 1 and not plain and not others:
+                return scope, unpack[0][1]          # the whole `a, b = <value>` statement
+            if len(plain) == 1 and not others:
+                return scope, plain[0][1]
+            return None
+        if name in scope.params:
+            return None
+        scope = scope.outer
+    return None
+
+
+def _int_capable_array(f: FuncInfo, name_node: ast.Name, at: ast.AST, depth: int = 4):
+    """Text of the integer-capable source the array `name` inherits its dtype from, or None.  Only single-assignment locals
+    are followed; anything that makes a float array (arithmetic, astype(float), dtype=float, random draws) gives None."""
+    if depth <= 0:
+        return None
+    d = _single_def(f, name_node.id)
+    if d is None:
+        return None
+    scope, v = d
+    if isinstance(v, ast.Assign):
+        # a, b = self._task.get_bounds(): Task.get_bounds returns the two bound arrays (int64 on integer-coded tasks)
+        if isinstance(v.value, ast.Call) and (dotted(v.value.func) or "").endswith("_task.get_bounds"):
+            return norm(v.value, 40)
+        return None
+    return _int_capable_expr(scope, v, depth)
+
+
+def _int_capable_expr(f: FuncInfo, v: ast.AST, depth: int):
+    if depth <= 0 or v is None:
+        return None
+    if isinstance(v, ast.Call):
+        fn = dotted(v.func) or ""
+        kws = {k.arg for k in v.keywords}
+        if fn in ("np.array", "np.asarray", "numpy.array", "numpy.asarray") and v.args and "dtype" not in kws and len(v.args) == 1:
+            a = v.args[0]
+            if isinstance(a, ast.Attribute) and a.attr == "position":
+                return norm(v, 60)
+            if isinstance(a, ast.Name):
+                dd = _single_def(f, a.id)
+                if dd is not None:
+                    sc, av = dd
+                    if isinstance(av, ast.Attribute) and av.attr == "position":
+                        return norm(v, 60)
+                    # lb, ub = self._task.get_bounds()
+                    if isinstance(av, ast.Call) and (dotted(av.func) or "").endswith("get_bounds"):
+                        return f"np.array(<{norm(av, 40)}>)"
+                    if isinstance(av, ast.Subscript) and isinstance(av.value, ast.Call) and (dotted(av.value.func) or "").endswith("get_bounds"):
+                        return f"np.array(<{norm(av, 40)}>)"
+                return None
+            return None
+        if fn in ("np.zeros_like", "np.ones_like", "np.empty_like", "np.full_like", "np.copy", "numpy.zeros_like", "numpy.copy") \
+                and v.args and "dtype" not in kws:
+            a = v.args[0]
+            if isinstance(a, ast.Name):
+                r = _int_capable_array(f, a, v, depth - 1)
+                return None if r is None else f"{fn}({r})"
+            return _int_capable_expr(f, a, depth - 1)
+        if isinstance(v.func, ast.Attribute) and v.func.attr == "copy" and not v.args:
+            b = v.func.value
+            if isinstance(b, ast.Name):
+                r = _int_capable_array(f, b, v, depth - 1)
+                return None if r is None else f"{r}.copy()"
+            return _int_capable_expr(f, b, depth - 1)
+        return None
+    if isinstance(v, ast.Name):
+        return _int_capable_array(f, v, v, depth - 1)
+    return None
+
+
+_FLOAT_DRAWS = {"random", "rand", "uniform", "normal", "randn", "standard_normal", "random_sample", "beta", "gamma", "exponential",
+                "standard_cauchy", "laplace", "logistic", "lognormal", "rayleigh", "triangular", "weibull"}
+
+
+def _floaty(f: FuncInfo, e: ast.AST, depth: int = 3) -> bool:
+    """Does the operand provably contain a float (a float constant, a true division, a float random draw, np.abs/sqrt/exp of
+    such, a configuration coefficient)?  Unknown names are followed through single assignments; otherwise False (no report)."""
+    if depth <= 0:
+        return False
+    for x in ast.walk(e):
+        if isinstance(x, ast.Constant) and isinstance(x.value, float):
+            return True
+        if isinstance(x, ast.BinOp) and isinstance(x.op, ast.Div):
+            return True
+        if isinstance(x, ast.Call):
+            d = dotted(x.func) or ""
+            if d.startswith(("np.random.", "numpy.random.")) and d.split(".")[-1] in _FLOAT_DRAWS:
+                return True
+            if d in ("np.sqrt", "np.exp", "np.log", "np.sin", "np.cos", "np.tan", "np.tanh", "np.mean", "np.std", "np.average",
+                     "np.linalg.norm", "np.power"):
+                return True
+        if isinstance(x, ast.Name) and isinstance(x.ctx, ast.Load):
+            dd = _single_def(f, x.id)
+            if dd is not None and dd[1] is not e and not isinstance(dd[1], ast.Assign) and _floaty(dd[0], dd[1], depth - 1):
+                return True
+            if dd is None:
+                # a loop variable: floaty when what is iterated over is
+                from ..flow import store_sites
+                scope = f
+                while scope is not None:
+                    sites = store_sites(scope.node, x.id)
+                    if sites:
+                        if len(sites) == 1 and sites[0][2] == "for" and _floaty(scope, sites[0][0].iter, depth - 1):
+                            return True
+                        break
+                    scope = scope.outer
+    return False
 
 
 def _data_dependent(f: FuncInfo, call: ast.Call, depth: int = 4):
@@ -405,6 +573,10 @@ def _sym(f: FuncInfo, e: ast.AST):
         return "cycle"
     if d == "self._config.population_size":
         return "pop"
+    if d == "self._workers":
+        return "wk"          # validated >= 1 by the entry guard (R1), any size relative to the population
+    if isinstance(e, ast.Name) and e.id == "n_agents" and e.id in f.params and f.name == "_generate_agents":
+        return "n"           # number of agents asked from the common generator (>= 1)
     return None
 
 
@@ -495,7 +667,19 @@ _A = "pyvolutionary/abstract.py"
 _M = "pyvolutionary/models.py"
 _W = "pyvolutionary/whales/whales_optimization.py"
 _IW = "pyvolutionary/invasive_weed/invasive_weed_optimization.py"
+_GW = "pyvolutionary/grey_wolf/grey_wolf_optimization.py"
 VARIANTS = [
+    V("inplace-float-on-position-array", _GW, "            pos = np.array(wolf.position)\n",
+      "            pos = np.array(wolf.position)\n            pos += 0.5 * np.random.random()\n", "C06.R7"),
+    V("inplace-divide-zeros-like-position", _GW, "            pos = np.array(wolf.position)\n",
+      "            pos = np.array(wolf.position)\n            acc = np.zeros_like(pos)\n            acc /= 3\n", "C06.R7"),
+    V("twin-out-of-place-float-on-position-array", _GW, "            pos = np.array(wolf.position)\n",
+      "            pos = np.array(wolf.position)\n            pos = pos + 0.5 * np.random.random()\n", None),
+    V("twin-inplace-on-float-cast", _GW, "            pos = np.array(wolf.position)\n",
+      "            pos = np.array(wolf.position).astype(float)\n            pos += 0.5 * np.random.random()\n", None),
+    V("workers-floor-division-denominator", _A, "            executors = [executor.submit(self._init_agent, position) for position in positions]\n",
+      "            chunk = n_agents // self._workers\n            positions = positions[:n_agents // chunk * chunk] + positions[n_agents // chunk * chunk:]\n"
+      "            executors = [executor.submit(self._init_agent, position) for position in positions]\n", "C06.R5"),
     V("workers-guard-deleted", _A, "            if workers <= 0:\n                raise ValueError(\"Invalid number of workers. It must be greater than 0\")\n", "", "C06.R1"),
     V("keyerror-in-prologue", _A, "raise ValueError(\"Invalid number of workers. It must be greater than 0\")", "raise KeyError(\"Invalid number of workers. It must be greater than 0\")", "C06.R1"),
     V("weight-count-test-dropped", _A, "        if n_weights != n_objectives:\n            raise ValueError(f\"Invalid number of weights. Expected {n_weights}, found {n_objectives}\")\n", "", "C06.R2"),
